@@ -14,9 +14,89 @@ MANIFEST = dict(
     technique="Coq theorem: a trace acceptor holds for every application session of an interpreter model of the screen layer over the MainLoop model; the same extracted acceptor judges traces of the real implementation; differential correspondence model<->/repo")
 
 
+_REASK_SCRIPT = r"""
+import sys, threading, json, io, os
+sys.path.insert(0, sys.argv[1])
+from simpleline import App
+from simpleline.input import input_handler as IH
+lines = ["first", "second", "third"]
+gate = threading.Semaphore(0)
+taken = []
+def fake_input():
+    gate.acquire()                      # the "user" types a line only when the test lets them
+    l = lines.pop(0) if lines else ""
+    taken.append(l)
+    return l
+IH.InputHandlerRequest._get_input = staticmethod(fake_input)
+App.initialize()
+real_out = sys.stdout; sys.stdout = io.StringIO()
+h = IH.InputHandler()
+log = []
+def cb2(v):
+    log.append(["cb2", v])
+def cb1(v):
+    log.append(["cb1", v])
+    h.set_callback(cb2)
+    h.get_input("again: ")              # "invalid value, ask again": the SAME handler asks again from inside its answer callback
+h.set_callback(cb1)
+h.get_input("value: ")
+res = {}
+def waiter():
+    h.wait_on_input()
+    res["value"] = h.value; res["ok"] = h.input_successful(); res["taken_at_return"] = list(taken); res["log_at_return"] = list(log)
+t = threading.Thread(target=waiter, daemon=True); t.start()
+gate.release()                          # first line
+t.join(3)
+res["returned_after_first_line_only"] = not t.is_alive()
+gate.release()                          # second line
+t.join(10)
+res["returned"] = not t.is_alive()
+sys.stdout = real_out
+print(json.dumps(res)); sys.stdout.flush()
+os._exit(0)
+"""
+
+
+def check_handler_reask(chk):
+    """An application's own InputHandler whose answer callback asks again on the SAME handler, then wait_on_input(): the model's
+    handler objects carry no callback (DESIGN section 11), so this is judged directly on the implementation — C18's statement for
+    it: the wait returns only after the answer to the handler's outstanding (second) request, and then reports that answer."""
+    import subprocess, json
+    import lib
+    p = subprocess.run([lib.PY, "-c", _REASK_SCRIPT, lib.REPO], capture_output=True, text=True, timeout=120, env=lib.ENV)
+    chk.count(); chk.hist("handler-reask")
+    try:
+        r = json.loads(p.stdout.strip().splitlines()[-1])
+    except Exception:      # noqa
+        r = dict(error=(p.stderr or p.stdout)[-300:])
+    ok = (r.get("returned") and not r.get("returned_after_first_line_only") and r.get("value") == "second" and r.get("ok") is True
+          and r.get("log_at_return") == [["cb1", "first"], ["cb2", "second"]])
+    if not ok:
+        chk.violation("handler-reask", "C18_wait_returns_after_answer / C18_wait_reports_last_answer (directly on the implementation): a handler "
+                      "whose callback asks again on the same handler: wait_on_input() must return only after the second answer and report it; "
+                      "observed %r" % (r,), dict(kind="handler-reask", result=r), found=True)
+    else:
+        chk.nontriv(dict(handler_reask=r.get("log_at_return")))
+
+
 def run(chk, tier):
+    lib_ok = True
+    import lib
+    lib.use_repo()
+    check_handler_reask(chk)
     screen_check.run(chk, tier, 'C18')
 
 
 def replay(path):
+    import json
+    r = json.load(open(path)).get("replay") or {}
+    if r.get("kind") == "handler-reask":
+        import subprocess, lib
+        p = subprocess.run([lib.PY, "-c", _REASK_SCRIPT, lib.REPO], capture_output=True, text=True, timeout=120, env=lib.ENV)
+        print(p.stdout.strip())
+        try:
+            x = json.loads(p.stdout.strip().splitlines()[-1])
+        except Exception:      # noqa
+            return 1
+        return 0 if (x.get("returned") and not x.get("returned_after_first_line_only") and x.get("value") == "second") else 1
     return screen_check.replay(path, 'C18')
